@@ -104,7 +104,7 @@ def run(ctx):
     S = schemata()
     rng = ctx.rng('combos')
     cases = [[s] for s in S]
-    n = 150 if ctx.quick else 1500
+    n = 150 if ctx.quick else 500
     for i in range(n):
         cases.append(rng.sample(S, rng.randint(2, 3)))
     inputs = []
